@@ -91,9 +91,25 @@ void *ldb_malloc(size_t n) {
   return p;
 }
 
+/* realloc that cannot fail.  RA.ghost == 0: CBMC's library realloc (content preserved).  RA.ghost == 1 (block
+ * lists of arbitrary length): a fresh block of n bytes that keeps the pointer-sized element at the arbitrary
+ * ghost index RA.j (exact for every statement about that element), the old block is released. */
+struct ra_ghost { int ghost; size_t j; int calls; } RA;
 void *ldb_realloc(void *q, size_t n) {
-  void *p = realloc(q, n);
+  void *p;
+  RA.calls++;
+  if (!RA.ghost) {
+    p = realloc(q, n);
+    __CPROVER_assume(p != NULL);
+    return p;
+  }
+  p = malloc(n);
   __CPROVER_assume(p != NULL);
+  if (q != NULL) {
+    if (RA.j < n / sizeof(void *) && __CPROVER_r_ok((void **)q + RA.j, sizeof(void *)))
+      ((void **)p)[RA.j] = ((void **)q)[RA.j];
+    free(q);
+  }
   return p;
 }
 
@@ -162,18 +178,50 @@ static uint8_t *make_key(uint8_t id) {
 #if !defined(SKL_ARENA) && !defined(SKL_MEM)
 /* ================================================= section: skip list only */
 
-/* exact-size arena: one fresh object per request, recorded */
-struct alloc_ghost { int calls; uint8_t *ptr; size_t size; ldb_arena_t *arena; int unaligned_api; } AG;
+/* Node storage.  CBMC is an order of magnitude faster on typed objects than on heap blocks of symbolic size,
+ * so nodes live in typed stores with room for SKL_H (pre-state nodes) or 12 (head, allocated node) links.
+ * "A node has exactly height links" is kept by POISON: every link slot at or above the node's height holds a
+ * pointer that cannot be dereferenced (one past an object); following it is a pointer-check failure, and the
+ * harness checks afterwards that every poisoned slot is untouched. */
+struct skl_store { const uint8_t *key; struct ldb_skipnode_s *volatile next[SKL_H]; };
+struct skl_hstore { const uint8_t *key; struct ldb_skipnode_s *volatile next[SKL_MAXH]; };
+static struct skl_store g_st0, g_st1, g_st2, g_st3;
+static struct skl_hstore g_hst;   /* head of the pre-state                   */
+static struct skl_hstore g_xst;   /* the node the code under test allocates  */
+static char g_poison_obj;
+struct ldb_skipnode_s *nondet_nodeptr(void);
+#define POISON ((struct ldb_skipnode_s *)(&g_poison_obj + 1))
+
+/* exact-size arena model: hands out g_xst once, usable for exactly `size` bytes (the rest is poisoned), recorded */
+struct alloc_ghost { int calls; uint8_t *ptr; size_t size; ldb_arena_t *arena; int unaligned_api; int links; } AG;
 
 void *ldb_arena_alloc_aligned(ldb_arena_t *arena, size_t size) {
-  uint8_t *p = malloc(size);
-  __CPROVER_assume(p != NULL);
+  uint8_t *p;
+  int l;
+  if (AG.calls == 0) {
+    p = (uint8_t *)&g_xst;
+    AG.links = SKL_MAXH;
+    for (l = 0; l < SKL_MAXH; l++) {
+      if (sizeof(void *) * (size_t)(l + 2) > size) { g_xst.next[l] = POISON; if (AG.links == SKL_MAXH) AG.links = l; }
+      else g_xst.next[l] = nondet_nodeptr();   /* uninitialised memory */
+    }
+    g_xst.key = (const uint8_t *)nondet_nodeptr();
+  } else {
+    p = malloc(size);
+    __CPROVER_assume(p != NULL);
+  }
   AG.calls++; AG.ptr = p; AG.size = size; AG.arena = arena;
   return p;
 }
 void *ldb_arena_alloc(ldb_arena_t *arena, size_t size) {
   AG.unaligned_api = 1;   /* nodes hold pointers: they must come from the aligned allocator */
   return ldb_arena_alloc_aligned(arena, size);
+}
+static void alloc_reset(void) { AG.calls = 0; AG.ptr = NULL; AG.size = 0; AG.arena = NULL; AG.unaligned_api = 0; AG.links = 0; }
+static int xst_poison_broken(void) {
+  int l, e = 0;
+  for (l = 0; l < SKL_MAXH; l++) if (l >= AG.links && g_xst.next[l] != POISON) e = 1;
+  return e;
 }
 
 #include "skiplist.c"
@@ -189,7 +237,12 @@ struct skl_world {
   int n;                               /* nodes                                        */
   int mh;                              /* max_height                                   */
   ldb_skipnode_t *node[SKL_M]; int h[SKL_M]; uint8_t id[SKL_M]; const uint8_t *key[SKL_M];
+  int n0; int h0[SKL_N];               /* pre-state count and heights by store (for the poison check)  */
 } W;
+
+static ldb_skipnode_t *store_of(int i) {
+  return (ldb_skipnode_t *)(i == 0 ? &g_st0 : i == 1 ? &g_st1 : i == 2 ? &g_st2 : &g_st3);
+}
 
 /* an arbitrary list satisfying RI: n <= SKL_N nodes, heights 1..SKL_H, strictly increasing ids */
 static void build_world(void) {
@@ -197,10 +250,9 @@ static void build_world(void) {
   IN_INT(in_n); IN_INT(in_mh);
   ASSUME(in_n >= 0 && in_n <= SKL_N);
   heap_reset(); rand_reset(); cmp_setup(&W.cmp);
-  AG.calls = 0; AG.ptr = NULL; AG.size = 0; AG.arena = NULL; AG.unaligned_api = 0;
-  W.n = in_n;
-  W.head = malloc(NODE_SIZE(SKL_MAXH));
-  ASSUME(W.head != NULL);
+  alloc_reset();
+  W.n = in_n; W.n0 = in_n;
+  W.head = (ldb_skipnode_t *)&g_hst;
   W.head->key = NULL;
   for (i = 0; i < SKL_M; i++) { W.node[i] = NULL; W.h[i] = 0; W.id[i] = 0; W.key[i] = NULL; }
   for (i = 0; i < SKL_N; i++) {
@@ -208,9 +260,9 @@ static void build_world(void) {
       int hh = nondet_int(); uint8_t id = nondet_u8();
       ASSUME(hh >= 1 && hh <= SKL_H);
       ASSUME(i == 0 || id > W.id[i - 1]);
-      W.h[i] = hh; W.id[i] = id; W.key[i] = make_key(id);
-      W.node[i] = malloc(NODE_SIZE(hh));
-      ASSUME(W.node[i] != NULL);
+      W.h[i] = hh; W.h0[i] = hh; W.id[i] = id; W.key[i] = make_key(id);
+      W.node[i] = store_of(i);
+      for (l = 0; l < SKL_H; l++) NX(W.node[i], l) = POISON;   /* links at or above the height do not exist */
       W.node[i]->key = W.key[i];
       if (hh > tallest) tallest = hh;
     }
@@ -237,6 +289,7 @@ static void build_world(void) {
 #define SH_SORT     8   /* ids not strictly increasing                                            */
 #define SH_HEIGHT  16   /* max_height out of [tallest, 12] or a node taller than 12                */
 #define SH_FIELDS  32   /* comparator / arena / head field of the list changed                    */
+#define SH_POISON  64   /* a link slot at or above a pre-state node's height was written           */
 static int shape_errors(int n, int maxlev) {
   int i, l, e = 0, tallest = 1;
   for (l = 0; l < SKL_MAXH; l++) {
@@ -262,6 +315,9 @@ static int shape_errors(int n, int maxlev) {
   }
   if (W.list.max_height < tallest || W.list.max_height > SKL_MAXH || W.list.max_height < 1) e |= SH_HEIGHT;
   if (W.list.comparator != &W.cmp || W.list.arena != &W.arena || W.list.head != W.head) e |= SH_FIELDS;
+  for (i = 0; i < SKL_N; i++)
+    for (l = 0; l < SKL_H; l++)
+      if (i < W.n0 && l >= W.h0[i] && NX(store_of(i), l) != POISON) e |= SH_POISON;
   return e;
 }
 
@@ -293,12 +349,13 @@ void h_init(void) {
   ldb_skiplist_t list; ldb_comparator_t cmp; ldb_arena_t arena;
   int l, bad = 0;
   heap_reset(); rand_reset(); cmp_setup(&cmp);
-  AG.calls = 0; AG.ptr = NULL; AG.size = 0; AG.arena = NULL; AG.unaligned_api = 0;
+  alloc_reset();
   ldb_skiplist_init(&list, &cmp, &arena, NULL);
   CHECK(list.comparator == &cmp && list.arena == &arena, "skiplist_init: comparator and arena are recorded in the list");
   CHECK(AG.calls == 1 && AG.arena == &arena && !AG.unaligned_api && list.head == (ldb_skipnode_t *)AG.ptr,
         "skiplist_init: the head node is the one aligned allocation from the list's arena");
   CHECK(AG.size == NODE_SIZE(SKL_MAXH), "skiplist_init: the head has room for kMaxHeight = 12 links");
+  CHECK(!xst_poison_broken(), "skiplist_init: nothing is written outside the head allocation");
   CHECK(list.head->key == NULL, "skiplist_init: the head carries no key");
   CHECK(list.max_height == 1, "skiplist_init: an empty list has max_height 1");
   for (l = 0; l < SKL_MAXH; l++) if (NX(list.head, l) != NULL) bad = 1;
@@ -446,6 +503,7 @@ void h_insert(void) {
   CHECK(!(e & SH_HEIGHT), "insert: 1 <= max_height <= 12 and max_height >= every node's height");
   CHECK(W.list.max_height == (hx > W.mh ? hx : W.mh), "insert: max_height is raised to the new node's height iff that is taller, otherwise unchanged");
   CHECK(!(e & SH_FIELDS), "insert: comparator, arena and head of the list are unchanged");
+  CHECK(!(e & SH_POISON) && !xst_poison_broken(), "insert: no link is written at or above a node's height (old nodes and the new one)");
   CHECK_CMP("insert");
   CANARY();
 }
@@ -503,3 +561,165 @@ void h_iter_bwd(void) {
 }
 
 #endif /* skip list section */
+
+/* ======================================================================== */
+#ifdef SKL_ARENA
+/* ======================================================== section: arena == */
+/* LevelDB util/arena.h.  State: the current chunk [data, data + left) and the list of blocks obtained from
+ * malloc.  Arena invariant AI: left == 0, or [data, data + left) lies inside one block the arena owns; every
+ * region handed out earlier lies in an owned block and is disjoint from [data, data + left).
+ *
+ *   Allocate(n), n > 0:          n <= left          -> the first n bytes of the chunk
+ *   AllocateAligned(n):          n + slop <= left   -> the first n bytes after the slop that aligns data to 8
+ *   otherwise (fallback):        n > kBlockSize/4 = 1024 -> a block of its own of exactly n bytes, the chunk is KEPT
+ *                                else a new 4096-byte block becomes the chunk (its first n bytes are returned,
+ *                                the rest of the old chunk is given up)
+ *   memory usage grows by (block size + sizeof(char*)) per block.
+ */
+
+#include "util/arena.c"
+
+struct arena_world {
+  ldb_arena_t a;
+  uint8_t *blk; size_t B, off;          /* current block (NULL: none), its size, offset of data                   */
+  uint8_t *q; size_t qn;                /* a region handed out earlier                                            */
+  size_t L; void *item_j;               /* old block-list length, the element at the ghost index RA.j (if j < L)  */
+  size_t u0;
+} AW;
+
+/* arbitrary arena state satisfying AI */
+static void build_arena(void) {
+  IN_SIZE(in_B); IN_SIZE(in_off); IN_INT(in_has_block); IN_SIZE(in_usage);
+  IN_SIZE(in_L); IN_SIZE(in_valloc); IN_SIZE(in_j); IN_INT(in_q_where); IN_SIZE(in_qoff); IN_SIZE(in_qn);
+  heap_reset();
+  /* block list: in_L entries in a vector of capacity in_valloc >= in_L */
+  ASSUME(in_L <= in_valloc && in_valloc <= ((size_t)1 << 32));
+  AW.a.blocks.length = in_L; AW.a.blocks.alloc = in_valloc;
+  AW.a.blocks.items = NULL;
+  if (in_valloc > 0) { AW.a.blocks.items = malloc(in_valloc * sizeof(void *)); ASSUME(AW.a.blocks.items != NULL); }
+  RA.ghost = 1; RA.j = in_j; RA.calls = 0;
+  AW.L = in_L; AW.item_j = in_j < in_L ? AW.a.blocks.items[in_j] : NULL;
+  /* current chunk */
+  ASSUME(in_B >= 1 && in_B <= ((size_t)1 << 40) && in_off <= in_B);
+  if (in_has_block) {
+    AW.blk = malloc(in_B); ASSUME(AW.blk != NULL);
+    AW.B = in_B; AW.off = in_off;
+    AW.a.data = AW.blk + in_off; AW.a.left = in_B - in_off;
+  } else {
+    AW.blk = NULL; AW.B = 0; AW.off = 0; AW.a.data = NULL; AW.a.left = 0;   /* ldb_arena_init's state */
+  }
+  ASSUME(in_usage <= ((size_t)1 << 60));
+  AW.a.usage = in_usage; AW.u0 = in_usage;
+  /* an earlier allocation: below data in the current block, or somewhere in another block */
+  ASSUME(in_qn >= 1 && in_qn <= ((size_t)1 << 40));
+  if (in_q_where && in_has_block) {
+    ASSUME(in_qoff <= in_off && in_qn <= in_off - in_qoff);
+    AW.q = AW.blk + in_qoff;
+  } else {
+    AW.q = malloc(in_qn); ASSUME(AW.q != NULL);
+  }
+  AW.qn = in_qn;
+}
+
+#define OFFS(p) ((size_t)__CPROVER_POINTER_OFFSET(p))
+#define DISJOINT(p, pn, q, qn) (!__CPROVER_same_object(p, q) || OFFS(p) + (pn) <= OFFS(q) || OFFS(q) + (qn) <= OFFS(p))
+#define INSIDE(p, pn, blk, bn) (__CPROVER_same_object(p, blk) && OFFS(p) >= OFFS(blk) && OFFS(p) - OFFS(blk) + (pn) <= (bn))
+
+/* what every allocation path must satisfy; r = result, size = request, (data0, left0) the chunk before */
+static void check_alloc_common(const char *unused, uint8_t *r, size_t size, uint8_t *data0, size_t left0, size_t consumed, int fits) {
+  (void)unused;
+  if (fits) {
+    CHECK(HG.mallocs == 0 && RA.calls == 0, "arena: a request that fits the current chunk takes no new block");
+    CHECK(AW.a.data == data0 + consumed && AW.a.left == left0 - consumed, "arena: the chunk shrinks from the front by exactly the bytes consumed (data advanced, left reduced)");
+    CHECK(AW.a.usage == AW.u0, "arena: memory usage unchanged without a new block");
+    CHECK(AW.a.blocks.length == AW.L, "arena: block list unchanged without a new block");
+    CHECK(INSIDE(r, size, AW.blk, AW.B), "arena: the returned region lies inside the current block");
+    CHECK(OFFS(r) + size <= OFFS(AW.a.data), "arena: the returned region ends at or before the new chunk start (it will not be handed out again)");
+  } else if (size > 4096 / 4) {
+    CHECK(HG.mallocs == 1 && HG.req[0] == size && r == HG.ptr[0], "arena: a request above a quarter block (1024) gets a block of its own of exactly that size");
+    CHECK(AW.a.data == data0 && AW.a.left == left0, "arena: a large request does not give up the current chunk");
+    CHECK(AW.a.usage == AW.u0 + size + sizeof(void *), "arena: memory usage grows by the block size plus one pointer");
+  } else {
+    CHECK(HG.mallocs == 1 && HG.req[0] == 4096 && r == HG.ptr[0], "arena: a small request that does not fit starts a new 4096-byte block and gets its first bytes");
+    CHECK(AW.a.data == HG.ptr[0] + size && AW.a.left == 4096 - size, "arena: the new chunk is the rest of the new block");
+    CHECK(AW.a.usage == AW.u0 + 4096 + sizeof(void *), "arena: memory usage grows by 4096 plus one pointer");
+  }
+  if (!fits) {
+    CHECK(AW.a.blocks.length == AW.L + 1 && AW.a.blocks.alloc >= AW.a.blocks.length, "arena: the new block is appended to the block list");
+    CHECK(AW.a.blocks.items[AW.L] == (void *)HG.ptr[0], "arena: the last block-list entry is the new block (it will be freed by clear)");
+    CHECK(!(RA.j < AW.L) || AW.a.blocks.items[RA.j] == AW.item_j, "arena: earlier block-list entries are preserved (arbitrary ghost index)");
+  }
+  CHECK(DISJOINT(r, size, AW.q, AW.qn), "arena: the returned region does not overlap a region handed out earlier");
+  CHECK(AW.a.left == 0 || DISJOINT(AW.a.data, AW.a.left, AW.q, AW.qn), "arena: the remaining chunk does not overlap a region handed out earlier");
+  CHECK(AW.a.left == 0 || DISJOINT(AW.a.data, AW.a.left, r, size), "arena: the remaining chunk does not overlap the region just returned");
+  CHECK(ldb_arena_usage(&AW.a) == AW.a.usage, "arena_usage: reports the usage counter");
+}
+
+/* ------------------------------------------------------- ldb_arena_alloc -- */
+void h_arena_alloc(void) {
+  IN_SIZE(in_size);
+  uint8_t *r, *data0; size_t left0;
+  build_arena();
+  ASSUME(in_size >= 1 && in_size <= ((size_t)1 << 40));   /* REQUIRES size > 0 */
+  data0 = AW.a.data; left0 = AW.a.left;
+  r = ldb_arena_alloc(&AW.a, in_size);
+  CHECK(in_size > left0 || r == data0, "arena_alloc: a request that fits returns the start of the current chunk");
+  check_alloc_common("arena_alloc", r, in_size, data0, left0, in_size, in_size <= left0);
+  CANARY();
+}
+
+/* ----------------------------------------------- ldb_arena_alloc_aligned -- */
+void h_arena_aligned(void) {
+  IN_SIZE(in_size);
+  uint8_t *r, *data0; size_t left0, mod, slop;
+  build_arena();
+  ASSUME(in_size >= 1 && in_size <= ((size_t)1 << 40));
+  data0 = AW.a.data; left0 = AW.a.left;
+  mod = (data0 == NULL ? 0 : OFFS(data0)) & 7;            /* blocks start on an 8-byte boundary */
+  slop = mod == 0 ? 0 : 8 - mod;
+  r = ldb_arena_alloc_aligned(&AW.a, in_size);
+  CHECK((OFFS(r) & 7) == 0 && ((uintptr_t)r & 7) == 0, "arena_alloc_aligned: the result is aligned to 8 bytes (>= sizeof(void *))");
+  CHECK(in_size + slop > left0 || r == data0 + slop, "arena_alloc_aligned: a request that fits returns the first aligned address of the chunk (at most 7 bytes skipped)");
+  check_alloc_common("arena_alloc_aligned", r, in_size, data0, left0, in_size + slop, in_size + slop <= left0);
+  CANARY();
+}
+
+/* ------------------------------------------- init, a run of allocations, clear -- */
+#define SEQ_K 3
+void h_arena_seq(void) {
+  ldb_arena_t a;
+  uint8_t *r[SEQ_K]; size_t sz[SEQ_K]; int al[SEQ_K];
+  int i, j, k, bad_dis = 0, bad_in = 0, bad_al = 0, bad_free = 0;
+  size_t want_usage = 0;
+  heap_reset(); RA.ghost = 0; RA.calls = 0; RA.j = 0;
+  ldb_arena_init(&a);
+  CHECK(a.data == NULL && a.left == 0 && ldb_arena_usage(&a) == 0 && a.blocks.length == 0 && a.blocks.alloc == 0 && a.blocks.items == NULL,
+        "arena_init: no chunk, no blocks, usage 0");
+  for (i = 0; i < SEQ_K; i++) {
+    sz[i] = nondet_size(); al[i] = nondet_int();
+    ASSUME(sz[i] >= 1 && sz[i] <= 8192);
+    r[i] = al[i] ? ldb_arena_alloc_aligned(&a, sz[i]) : ldb_arena_alloc(&a, sz[i]);
+  }
+  for (i = 0; i < SEQ_K; i++) {
+    int owned = 0;
+    for (j = 0; j < SEQ_K; j++) if (i < j && !DISJOINT(r[i], sz[i], r[j], sz[j])) bad_dis = 1;
+    for (k = 0; k < SEQ_K; k++) if (k < HG.mallocs && INSIDE(r[i], sz[i], HG.ptr[k], HG.req[k])) owned = 1;
+    if (!owned) bad_in = 1;
+    if (al[i] && (OFFS(r[i]) & 7) != 0) bad_al = 1;
+  }
+  CHECK(!bad_dis, "arena: allocations of one arena are pairwise disjoint");
+  CHECK(!bad_in, "arena: every allocation lies inside the requested size of a block the arena obtained");
+  CHECK(!bad_al, "arena: every aligned allocation is 8-byte aligned");
+  CHECK(HG.mallocs >= 1 && HG.mallocs <= SEQ_K && !HG.overflow, "arena: at most one new block per allocation, at least one overall");
+  for (k = 0; k < SEQ_K; k++) if (k < HG.mallocs) want_usage += HG.req[k] + sizeof(void *);
+  CHECK(ldb_arena_usage(&a) == want_usage, "arena_usage: the sum over the blocks of (block size + one pointer)");
+  CHECK(a.blocks.length == (size_t)HG.mallocs, "arena: every block is on the block list");
+  ldb_arena_clear(&a);
+  for (k = 0; k < SEQ_K; k++) if (k < HG.mallocs && was_freed(HG.ptr[k]) != 1) bad_free = 1;
+  CHECK(!bad_free, "arena_clear: every block is freed exactly once");
+  CHECK(HG.frees == HG.mallocs + 1, "arena_clear: besides the blocks only the block list itself is freed");
+  CHECK(a.blocks.length == 0 && a.blocks.alloc == 0 && a.blocks.items == NULL, "arena_clear: the block list is emptied");
+  CANARY();
+}
+
+#endif /* SKL_ARENA */
